@@ -205,7 +205,11 @@ package state
 //@ modifies st.dbErr, mapof(st.stateObjects)
 //@ ensures [cached] old(in(addr, st.stateObjects) && st.stateObjects[addr] != nil) ==>
 //@     result == old(st.stateObjects[addr]) && mapdom(st.stateObjects) == old(mapdom(st.stateObjects)) && mapval(st.stateObjects) == old(mapval(st.stateObjects)) && st.dbErr == old(st.dbErr)
-//@ ensures [loaded] result != nil && !old(in(addr, st.stateObjects) && st.stateObjects[addr] != nil) ==> fresh(result) && st.stateObjects[addr] == result
+//@ ensures [loaded] result != nil && !old(in(addr, st.stateObjects) && st.stateObjects[addr] != nil) ==>
+//@     fresh(result) && in(addr, st.stateObjects) && st.stateObjects[addr] == result && result.address == addr && !result.deleted && result.data.Balance != nil
+//@ ensures [miss] result == nil ==> !old(in(addr, st.stateObjects) && st.stateObjects[addr] != nil) &&
+//@     mapdom(st.stateObjects) == old(mapdom(st.stateObjects)) && mapval(st.stateObjects) == old(mapval(st.stateObjects))
+//@ ensures [others-kept] forall a: common.Address :: a != addr ==> st.stateObjects[a] == old(st.stateObjects[a]) && in(a, st.stateObjects) == old(in(a, st.stateObjects))
 
 //@ func (*StateDB).getStateObject props C09
 //@ panics none
@@ -591,3 +595,46 @@ package state
 //@ ensures [journalled] len(j.entries) == old(len(j.entries)) + 1 && hastype(c09Last(j), *validatorAddUBDChange) &&
 //@     unbox(c09Last(j), *validatorAddUBDChange) != nil && unbox(c09Last(j), *validatorAddUBDChange).prev == record
 //@ ensures [wf] c09JournalWF(j)
+
+// --- account (re-)creation -----------------------------------------------------------------------------------------------
+// An object for the address is in the live set (stateObjects), DELETED OR NOT. A deleted object is the only record, until the end of
+// the block, that an earlier transaction destructed the account: it must survive a reverted re-creation.
+//@ spec func c09Cached(s: *StateDB, a: common.Address) bool = in(a, s.stateObjects) && s.stateObjects[a] != nil
+
+// createObject(addr): prev = the live-set object of addr (deleted or not), else the object loaded from the trie, else nil.
+// [journalled]: with a prev the appended entry is a resetObjectChange holding EXACTLY prev (so its revert puts prev back under addr,
+// (resetObjectChange).revert#[restored]); only without any prev it is a createObjectChange for addr (whose revert removes the key,
+// (createObjectChange).revert#[restored], which is then again "no object for addr"). Either way the revert of the appended entry leaves
+// the live-set entry of addr as it was before createObject (as getDeletedStateObject left it, for a trie load).
+//@ func (*StateDB).createObject props C09
+//@ panics none
+//@ requires st != nil && st.stateObjects != nil && c09JournalWF(st.journal)
+//@ requires [keyed] c09Cached(st, addr) ==> st.stateObjects[addr].address == addr
+//@ let j = st.journal
+//@ modifies st.dbErr, mapof(st.stateObjects), j.entries, elems(j.entries), mapof(j.dirties)
+//@ ensures [prev-is-live-object] old(c09Cached(st, addr)) ==> prev == old(st.stateObjects[addr])
+//@ ensures [prev-nil-only-if-absent] prev == nil ==> !old(c09Cached(st, addr))
+//@ ensures [journalled-reset] prev != nil ==> len(j.entries) == old(len(j.entries)) + 1 && hastype(c09Last(j), resetObjectChange) &&
+//@     unbox(c09Last(j), resetObjectChange).prev == prev && prev.address == addr
+//@ ensures [journalled-create] prev == nil ==> len(j.entries) == old(len(j.entries)) + 1 && hastype(c09Last(j), createObjectChange) &&
+//@     unbox(c09Last(j), createObjectChange).account != nil && *unbox(c09Last(j), createObjectChange).account == addr
+//@ ensures [installed] newobj != nil && fresh(newobj) && in(addr, st.stateObjects) && st.stateObjects[addr] == newobj && newobj.address == addr &&
+//@     newobj.data.Nonce == 0 && newobj.data.Balance != nil && fresh(newobj.data.Balance) && big(newobj.data.Balance) == 0 && !newobj.deleted && !newobj.suicided
+//@ ensures [others-kept] forall a: common.Address :: a != addr ==> st.stateObjects[a] == old(st.stateObjects[a]) && in(a, st.stateObjects) == old(in(a, st.stateObjects))
+//@ ensures [prev-untouched] prev != nil && old(c09Cached(st, addr)) ==> prev.deleted == old(st.stateObjects[addr].deleted) && prev.data.Balance == old(st.stateObjects[addr].data.Balance)
+//@ ensures [wf] c09JournalWF(j)
+
+// CreateAccount(addr): createObject, then the balance of a previous object (if any) is carried over to the new one.
+//@ func (*StateDB).CreateAccount props C09
+//@ panics none
+//@ requires st != nil && st.stateObjects != nil && c09JournalWF(st.journal)
+//@ requires [keyed] c09Cached(st, addr) ==> st.stateObjects[addr].address == addr
+//@ let j = st.journal
+//@ let was = st.stateObjects[addr]
+//@ modifies st.dbErr, mapof(st.stateObjects), j.entries, elems(j.entries), mapof(j.dirties)
+//@ ensures [journalled-reset] old(c09Cached(st, addr)) ==> len(j.entries) == old(len(j.entries)) + 1 && hastype(c09Last(j), resetObjectChange) &&
+//@     unbox(c09Last(j), resetObjectChange).prev == was
+//@ ensures [journalled] len(j.entries) == old(len(j.entries)) + 1 && (hastype(c09Last(j), resetObjectChange) || hastype(c09Last(j), createObjectChange))
+//@ ensures [installed] in(addr, st.stateObjects) && st.stateObjects[addr] != nil && fresh(st.stateObjects[addr]) && st.stateObjects[addr].data.Nonce == 0
+//@ ensures [balance-carried] old(c09Cached(st, addr)) ==> st.stateObjects[addr].data.Balance == old(was.data.Balance)
+//@ ensures [others-kept] forall a: common.Address :: a != addr ==> st.stateObjects[a] == old(st.stateObjects[a]) && in(a, st.stateObjects) == old(in(a, st.stateObjects))
